@@ -129,3 +129,32 @@ def compare_triplets(got, want):
     if set(got) != set(want):
         return False, f"got {sorted(got)} want {sorted(want)}"
     return True, ""
+
+
+# ---------------------------------------------------------------- configuration bound: alphabet
+AMINO = "ACDEFGHIKLMNPQRSTVWY"
+
+
+def set_alphabet(letters):
+    """Rebind pyrepseq's module constant `aminoacids` (and the default `alphabet` arguments bound to
+    it at definition time) to `letters` for this analysis process.  A stated bound on pyrepseq's
+    configuration: the edit-ball generators loop over the alphabet."""
+    import sys
+    import types
+    n = 0
+    for name, mod in list(sys.modules.items()):
+        if mod is None or not (name == "pyrepseq" or name.startswith("pyrepseq.")):
+            continue
+        for k, v in list(vars(mod).items()):
+            if isinstance(v, str) and v == AMINO:
+                setattr(mod, k, letters)
+                n += 1
+            elif isinstance(v, (set, frozenset)) and v == set(AMINO):
+                setattr(mod, k, type(v)(letters))
+                n += 1
+            elif isinstance(v, types.FunctionType) and v.__defaults__:
+                if any(isinstance(d, str) and d == AMINO for d in v.__defaults__):
+                    v.__defaults__ = tuple(letters if (isinstance(d, str) and d == AMINO) else d
+                                           for d in v.__defaults__)
+                    n += 1
+    return n
